@@ -68,6 +68,10 @@ def parseOp (ws : List String) : Option (Option Op) :=
   | ["mkstream", p] => some (some (.mkstream (decName p)))
   | ["mknew", p] => some (some (.mknew (decName p)))
   | ["put", p, h] => some (some (.put (decName p) (bytesOfHex h)))
+  | ["putpat", p, n, salt] =>
+    match n.toNat?, salt.toNat? with
+    | some n, some salt => some (some (.put (decName p) ((List.range n).map (fun i => UInt8.ofNat ((i * 31 + salt * 7 + 1) % 251)))))
+    | _, _ => none
   | ["get", p] => some (some (.get (decName p)))
   | ["open", p] => some (some (.open_ (decName p)))
   | ["rm", p] => some (some (.rm (decName p)))
